@@ -7,6 +7,12 @@ open PwVerif PwVerif.Inject PwVerif.Proto
     cfg pinned|repaired                           how operands are printed into the label
     cfg slice strict|python                       the function of the Slice node
     cfg hash salted|stable                        does the label depend on the interpreter session?
+    cfg key label|ident                           channels enter the key by scoped label (/repo) or as objects
+    rename <c<cid>|n<k>> <hex scoped label>       the node owning the channel was relabelled
+    unchild <parent> <hex label>                  a name among the parent's children is given up (relabel, removal)
+    edit                                          any edit above the parents (root relabelled, parent composite
+                                                  adopted / moved / orphaned / relabelled): nothing changes
+        -> edit <children of parent 0> <1> <2>
     chan <cid> <parent|-> <hex scoped label>      a source output channel and its owner's parent
     child <parent> <hex label>                    a name already taken among the parent's children
     inj <owner> <dunder> <operand>*               owner/operand: c<cid> | n<k> (output of injected node k)
@@ -22,8 +28,8 @@ open PwVerif PwVerif.Inject PwVerif.Proto
     reload                                        pickle round trip of the parents: nothing changes
     restart                                       save, new interpreter session, load: children unchanged, but
                                                   (cfg hash salted) `hash` is a different function from now on
-        -> restart <children of parent 0> <children of parent 1>
-        -> reload <children of parent 0> <children of parent 1>
+        -> restart <children of parent 0> <1> <2>
+        -> reload <children of parent 0> <1> <2>
 
 `hash` is modelled by interning: the k-th distinct key of session s hashes to "k" (session 0) or "s.k".
 -/
@@ -50,6 +56,7 @@ structure DSt where
   printer : Printer := .pinned
   sliceFn : SliceFn := .strict
   salted : Bool := true
+  identKey : Bool := false
   session : Nat := 0
   st : St := { children := fun _ => [], next := 0 }
   keys : List Key := []
@@ -81,6 +88,9 @@ def chanRef (s : DSt) (w : String) : Option (Nat × Option Nat × String) :=
     else none
   id?.bind fun id => (s.chans.lookup id).map fun x => (id, x.1, x.2)
 
+/-- how a channel enters the key -/
+def keyName (s : DSt) (id : Nat) (sc : String) : String := if s.identKey then "#" ++ toString id else sc
+
 def parseOperand (s : DSt) (w : String) : Option Operand :=
   if w.startsWith "r:" then
     match w.splitOn ":" with
@@ -89,7 +99,7 @@ def parseOperand (s : DSt) (w : String) : Option Operand :=
       | some t, some a, some b => some (.raw t a b)
       | _, _, _ => none
     | _ => none
-  else (chanRef s w).map fun (id, _, sc) => .chan id sc
+  else (chanRef s w).map fun (id, _, sc) => .chan id (keyName s id sc)
 
 def parseComp : Char → Option Comp
   | 'N' => some .isNone | 'V' => some .val | 'U' => some .noData | _ => none
@@ -117,12 +127,26 @@ def step (s : DSt) (ws : List String) : DSt × List String :=
   | ["cfg", "repaired"] => ({ s with printer := .repaired }, [])
   | ["cfg", "slice", "strict"] => ({ s with sliceFn := .strict }, [])
   | ["cfg", "slice", "python"] => ({ s with sliceFn := .python }, [])
+  | ["cfg", "key", "label"] => ({ s with identKey := false }, [])
+  | ["cfg", "key", "ident"] => ({ s with identKey := true }, [])
+  | ["edit"] => (s, [s!"edit {(s.st.children 0).length} {(s.st.children 1).length} {(s.st.children 2).length}"])
+  | ["rename", ch, sc] =>
+    match chanRef s ch, unhex sc with
+    | some (id, _, _), some sc =>
+      ({ s with chans := s.chans.map fun (i, p, l) => if i == id then (i, p, sc) else (i, p, l) }, [])
+    | _, _ => (s, ["bad-op"])
+  | ["unchild", par, lab] =>
+    match par.toNat?, unhex lab with
+    | some par, some lab =>
+      if ((s.st.children par).lookup lab).isNone then (s, ["bad-op"]) else
+      ({ s with st := { s.st with children := updF s.st.children par ((s.st.children par).filter (·.1 != lab)) } }, [])
+    | _, _ => (s, ["bad-op"])
   | ["cfg", "hash", "salted"] => ({ s with salted := true }, [])
   | ["cfg", "hash", "stable"] => ({ s with salted := false }, [])
   | ["restart"] =>
     let s' := if s.salted then { s with session := s.session + 1, keys := [] } else s
-    (s', [s!"restart {(s.st.children 0).length} {(s.st.children 1).length}"])
-  | ["reload"] => (s, [s!"reload {(s.st.children 0).length} {(s.st.children 1).length}"])
+    (s', [s!"restart {(s.st.children 0).length} {(s.st.children 1).length} {(s.st.children 2).length}"])
+  | ["reload"] => (s, [s!"reload {(s.st.children 0).length} {(s.st.children 1).length} {(s.st.children 2).length}"])
   | ["chan", cid, par, sc] =>
     match cid.toNat?, (if par == "-" then some none else par.toNat?.map some), unhex sc with
     | some cid, some par, some sc =>
@@ -140,7 +164,7 @@ def step (s : DSt) (ws : List String) : DSt × List String :=
     let ops := if raised then ops0.dropLast else ops0
     match chanRef s owner, parseDunder dn, ops.mapM (parseOperand s) with
     | some (oid, parent, sc), some d, some ops =>
-      let e : Expr := { owner := oid, slabel := sc, cls := dispatch d, ops := ops }
+      let e : Expr := { owner := oid, slabel := keyName s oid sc, cls := dispatch d, ops := ops }
       let keys := intern s.keys (key s.printer e)
       let H := hashIn s.session keys
       let r := injectX (label H s.printer) s.st parent e raised
@@ -154,7 +178,8 @@ def step (s : DSt) (ws : List String) : DSt × List String :=
     if rest != [] && rest != ["!"] then (s, ["bad-op"]) else
     let gRaised := rest == ["!"]
     match chanRef s owner, parseOperand s a, parseOperand s b, parseOperand s c, parseFlags flags with
-    | some (oid, parent, sc), some a, some b, some c, some (ready, sN, bN, cN) =>
+    | some (oid, parent, sc0), some a, some b, some c, some (ready, sN, bN, cN) =>
+      let sc := keyName s oid sc0
       let es : Expr := { owner := oid, slabel := sc, cls := "Slice", ops := [a, b, c] }
       let keys1 := intern s.keys (key s.printer es)
       let slab := label (hashIn s.session keys1) s.printer es
